@@ -106,7 +106,8 @@ type retryParams struct {
 	Chunk  int            `json:"chunk,omitempty"`
 	Late   bool           `json:"late,omitempty"`
 	Slow   int            `json:"slow,omitempty"`
-	Mode   string         `json:"mode"` // single | pairs | random | steer | one
+	Client string         `json:"client,omitempty"` // "" = reconnect | retry | retry-retryfirst
+	Mode   string         `json:"mode"`             // single | pairs | random | steer | one
 	Part   int            `json:"part,omitempty"`
 	Of     int            `json:"of,omitempty"`
 	N      int            `json:"n,omitempty"`
@@ -118,11 +119,18 @@ func (p retryParams) base() scen.Scenario {
 	if !ok {
 		panic("unknown workload " + p.W)
 	}
-	return scen.Scenario{Client: "reconnect", Cfg: p.Cfg, AlwaysResub: p.Always, Chunk: p.Chunk, LateWriteOK: p.Late, SlowReturn: p.Slow, Pre: w.Pre, Steps: w.Steps, OnConnect: w.OnC, SlowActive: w.Slow}
+	cl := p.Client
+	if cl == "" {
+		cl = "reconnect"
+	}
+	return scen.Scenario{Client: cl, Cfg: p.Cfg, AlwaysResub: p.Always, Chunk: p.Chunk, LateWriteOK: p.Late, SlowReturn: p.Slow, Pre: w.Pre, Steps: w.Steps, OnConnect: w.OnC, SlowActive: w.Slow}
 }
 
 func cfgName(c scen.BrokerCfg, always bool, chunk int, late bool) string {
 	s := c.Method + "/" + c.Session
+	if c.Echo {
+		s += "/echo"
+	}
 	if always {
 		s += "/always"
 	}
@@ -161,6 +169,20 @@ func cfgs(methods, sessions []string, always []bool) []retryParams {
 	return out
 }
 
+// withClients appends copies of the first n configurations that run the hand-written retry loop
+// (RetryClient through the Retryer contract) instead of the library's ReconnectClient.
+func withClients(c []retryParams, n int, kinds ...string) []retryParams {
+	out := append([]retryParams{}, c...)
+	for i := 0; i < n && i < len(c); i++ {
+		for _, k := range kinds {
+			x := c[i]
+			x.Client = k
+			out = append(out, x)
+		}
+	}
+	return out
+}
+
 func genRetry(spec retrySpec, tier string) []fw.Case {
 	var cs []fw.Case
 	for _, wn := range spec.Workloads {
@@ -169,6 +191,9 @@ func genRetry(spec retrySpec, tier string) []fw.Case {
 		for _, c := range spec.Configs {
 			c.W = wn
 			name := wn + "/" + cfgName(c.Cfg, c.Always, c.Chunk, c.Late)
+			if c.Client != "" {
+				name += "/" + c.Client
+			}
 			if spec.Singles {
 				c.Mode = "single"
 				cs = append(cs, fw.Mk("single/"+name, c))
@@ -201,7 +226,7 @@ func genRetry(spec retrySpec, tier string) []fw.Case {
 				per := 40
 				for i := 0; i*per < spec.RandHist; i++ {
 					c.Mode, c.N, c.Part = "randhist", per, i
-					cs = append(cs, fw.Mk(fmt.Sprintf("randhist/%s/%d", cfgName(c.Cfg, c.Always, c.Chunk, c.Late), i), c))
+					cs = append(cs, fw.Mk(fmt.Sprintf("randhist/%s%s/%d", cfgName(c.Cfg, c.Always, c.Chunk, c.Late), c.Client, i), c))
 				}
 			}
 			if spec.Drops {
@@ -485,7 +510,7 @@ func runRetryCase(prop string, mon monFn) func(c fw.Case, env *fw.Env) fw.Result
 				_ = one
 				r.Verdict = fw.Violated
 				r.Sig = f[0].Sig
-				r.Detail = fmt.Sprintf("%s\nworkload=%s cfg=%s faults=%v dial_fail=%v steer=%s/%d %v\nfired: %s", f[0].Detail, p.W, cfgName(sc.Cfg, sc.AlwaysResub, sc.Chunk, sc.LateWriteOK), sc.Faults, sc.DialFail, sc.SteerAt, sc.SteerConn, sc.SteerSteps, a.FaultShape())
+				r.Detail = fmt.Sprintf("%s\nclient=%s workload=%s cfg=%s faults=%v dial_fail=%v steer=%s/%d %v\nfired: %s", f[0].Detail, sc.Client, p.W, cfgName(sc.Cfg, sc.AlwaysResub, sc.Chunk, sc.LateWriteOK), sc.Faults, sc.DialFail, sc.SteerAt, sc.SteerConn, sc.SteerSteps, a.FaultShape())
 				if run.GoDump != "" {
 					r.Detail += "\nlibrary goroutines:\n" + run.GoDump
 				}
@@ -501,7 +526,7 @@ func runRetryCase(prop string, mon monFn) func(c fw.Case, env *fw.Env) fw.Result
 				r.Detail = fmt.Sprintf("quiescent=%v stuck=%v inconcl=%q", run.Quiescent, run.Stuck, run.Inconcl)
 			}
 			if nt {
-				r.NT = append(r.NT, fw.Hash(prop, p.W, cfgName(sc.Cfg, sc.AlwaysResub, sc.Chunk, sc.LateWriteOK), a.FaultShape(), sc.SteerAt, sc.SteerConn, fmt.Sprint(sc.SteerSteps)))
+				r.NT = append(r.NT, fw.Hash(prop, sc.Client, p.W, cfgName(sc.Cfg, sc.AlwaysResub, sc.Chunk, sc.LateWriteOK), a.FaultShape(), sc.SteerAt, sc.SteerConn, fmt.Sprint(sc.SteerSteps)))
 			}
 			if r.Sample == nil && nt {
 				r.Sample = map[string]interface{}{"workload": p.W, "cfg": cfgName(sc.Cfg, sc.AlwaysResub, sc.Chunk, sc.LateWriteOK), "faults_planned": fmt.Sprint(sc.Faults), "faults_fired": a.FaultShape(),
